@@ -272,9 +272,14 @@ def adjustHyperlinks (ls : List Link) (dir : Dir) (num off : Int) : List Link :=
 
 /-! ## sqref lists (conditional formats, data validations) -/
 
+/-- does the *first* coordinate of a range move? (`applyOffset` of `adjustCellRef`,
+`moves` of `adjustAutoFilterHelper`): when the first row/column itself is
+removed the range keeps its start and shrinks from the end -/
+def startMoves (p num off : Int) : Bool := decide (p > num ∨ (off > 0 ∧ p = num))
+
 /-- `applyOffset` of `adjustCellRef` on one axis -/
 def sqAxis (a b num off lim : Int) : Int × Int :=
-  let a' := if a ≥ num then a + off else a
+  let a' := if startMoves a num off then a + off else a
   let b' := if b ≥ num then (if b + off > lim then lim else b + off) else b
   (a', b')
 
@@ -347,9 +352,9 @@ def adjustMerges (dir : Dir) (num off : Int) : List (Option Rect) → Status × 
 /-- `adjustAutoFilterHelper` -/
 def filterHelper (dir : Dir) (q : Rect) (num off : Int) : Rect :=
   match dir with
-  | .rows => { q with y1 := if q.y1 ≥ num then q.y1 + off else q.y1,
+  | .rows => { q with y1 := if startMoves q.y1 num off then q.y1 + off else q.y1,
                       y2 := if q.y2 ≥ num then q.y2 + off else q.y2 }
-  | .cols => { q with x1 := if q.x1 ≥ num then q.x1 + off else q.x1,
+  | .cols => { q with x1 := if startMoves q.x1 num off then q.x1 + off else q.x1,
                       x2 := if q.x2 ≥ num then q.x2 + off else q.x2 }
 
 /-- `adjustAutoFilter`: returns the status, the new filter and the rows (the
@@ -361,23 +366,24 @@ def adjustFilter (flt : Option (Option Rect)) (rows : List Row) (dir : Dir) (num
   | some none => (.err, some none, rows)
   | some (some q) =>
     let gone := match dir with
-      | .rows => decide (q.y1 = num ∧ off < 0)
-      | .cols => decide (q.x1 = num ∧ q.x2 = num)
+      | .rows => decide (off < 0 ∧ q.y1 = num)
+      | .cols => decide (off < 0 ∧ q.x1 = num ∧ q.x2 = num)
     if gone then
       (.ok, none, rows.map fun r => if r.r > q.y1 ∧ r.r ≤ q.y2 then { r with hidden := false } else r)
     else
       let q' := filterHelper dir q num off
       if rectOk q' then (.ok, some (some q'), rows) else (.err, some none, rows)
 
-/-- `adjustTable`, coordinates only. The removal test compares the edited *row*
-with `coordinates[0]`, the table's first *column* (as the code does). -/
+/-- `adjustTable`, coordinates only: a table goes when its header row is removed
+or when fewer than two rows / no column remain. -/
 def adjustTables (dir : Dir) (num off : Int) : List Tbl → Status × List Tbl
   | [] => (.ok, [])
   | t :: ts =>
     match t.rect with
     | none => (.err, t :: ts)
     | some q =>
-      if dir = .rows ∧ num = q.x1 ∧ off = -1 then adjustTables dir num off ts
+      if dir = .rows ∧ num = (if Facts.C06.tableHeaderCoord = 1 then q.y1 else q.x1) ∧ off = -1 then
+        adjustTables dir num off ts
       else
         let q' := filterHelper dir q num off
         if q'.y2 - q'.y1 < 1 ∨ q'.x2 - q'.x1 < 0 then adjustTables dir num off ts
